@@ -6,6 +6,27 @@ HERE = os.path.dirname(os.path.dirname(os.path.abspath(__file__)))
 
 # id -> (technique, level text, level note, design ref)
 CHECKS = {
+ 'C01': ('Hypothesis scene/parameter generation + validity predicate on the message string against the tables',
+         'Thousands of generated (hit table, MSA/buffer/okta/separation) cases per run, every okta class and MSA position (incl. a base exactly at the MSA) reached by construction through exact-count scenes; each message at all three levels is checked against a format/ordering/ICAO-rank/selection predicate resolved against the tables. Exploration: the input space is unbounded and the pipeline contains third-party numerics, so absence of violations is evidence, not proof.',
+         'Trusts the regex/predicate in vlib/props/c01.py; tables are used only to resolve which layer a group stands for.', '5/C01'),
+ 'C02': ('Hypothesis scene/parameter generation + clause-wise oracle with the cropped-hit count recomputed from the input (reference crop model)',
+         'Generated tables of up to five layers over all okta classes and MSA positions; lowest-layer, ceiling, listed-layer, NCD and NSC clauses evaluated per level; the high-cloud decision uses the harness own count of input hits above MSA+buffer, not the chunk flag. Exploration level for the same reason as C01.',
+         'Trusts the crop model (vlib/oracles.py) and the clause reading given in RULE; the stricter full message model is reported, not enforced.', '5/C02'),
+ 'C03': ('Hypothesis scenes + exhaustive (n, N) grid against an exact rational coverage model',
+         'Every table row of every generated case is recounted from chunk.data (distinct (ceilo, dt)), and the okta is compared with an exact-arithmetic model; the (count, total, buffers) grid for one flat layer is enumerated completely up to N=12 (quick) / 40 (thorough), including monotonicity along each line.',
+         'Trusts the coverage model; accepts both neighbours at exact x.5 okta ties (the statement says "nearest").', '5/C03'),
+ 'C04': ('Hypothesis scenes x base-height parameters against an independent percentile / look-back / exclusion model with tie intervals',
+         'Each base height, statistic and code of each table row is recomputed from the member hits with an own percentile routine over the look-back selection (interval only where dt ties straddle the cut), including float-neighbour heights around every coding boundary.',
+         'Trusts vlib/oracles.py base_interval/percentile_linear; tolerances 1e-9 relative.', '5/C04'),
+ 'C05': ('Hypothesis scenes incl. degenerate and >=102-slice constructions + conservation/partition invariants against the crop model',
+         'Per-hit ids, table id sets, counts, layer-in-group nesting and ncomp bookkeeping are checked on every case; hits are compared as a multiset with the crop model applied to the input. Dedicated constructions reach id-collision territory (>= 102 slices under a split group).',
+         'Trusts the crop model and the invariants as written in vlib/props/c05.py.', '5/C05'),
+ 'C06': ('Hypothesis merge-chain / split-candidate scenes x separation, percentile, look-back, exclusion, row order; metamorphic no-merge twin for non-triviality; harness-side spy for the no-re-merge precondition',
+         'Group clause checked on every adjacent pair of every case; layer clause on every split group whose raw mixture count equals its final count (observed by wrapping layer.best_gmm / ncomp_from_gmm at run time). A twin run without merging measures how often merging really happened.',
+         'Trusts the spy alignment (cases where it cannot be aligned are skipped and counted) and bin lookup in vlib/oracles.py.', '5/C06'),
+ 'C08': ('Hypothesis generation over all scene classes, anomalies and all parameter leaves + exception bucketing; refusal domain checked for AmpycloudError-only',
+         'Any exception on the valid domain is a failure, bucketed by (type, innermost ampycloud frame) so distinct crashes are reported separately; refusals (illegal frames, out-of-order calls) must raise AmpycloudError and nothing else. "Never crashes" can only be searched, not established.',
+         'Parameter domains as listed in DESIGN.md section 3; parameter-value refusals are not enforced.', '5/C08'),
  'C17': ('exhaustive enumeration + Hypothesis lists against an independent 1-3-5 fold (reference model)',
          'Every okta sequence over 0..8 up to length 5 (quick) / 7 (thorough) is enumerated and compared with an '
          'independent fold, so the property is decided completely for that bound; longer sequences (<=60) are sampled '
